@@ -302,9 +302,13 @@ SERVER_PROPS = {
               "non-trivial = contains a Cancel; distinct by (cfg, steps)"),
         assumptions=SERVER_ASSUME + ["the cross-hop cascade (chains of depth 1-3) is not bound to the code by this check yet; see DESIGN.md"],
         models=[smodel("cancel-positions", ["M_C04"], CancelBudget=2, thorough=dict(MaxInc=3)),
-                smodel("cancel-limit-slow-sink", ["M_C04"], Limit=1, SinkMode='"coupled"', thorough=dict(MaxInc=3))],
+                smodel("cancel-limit-slow-sink", ["M_C04"], Limit=1, SinkMode='"coupled"', thorough=dict(MaxInc=3)),
+                smodel("cancel-backlog", ["M_C04"], MaxInc=3, SinkMode='"coupled"', CancelBudget=1, AllowEof=False, Deadlines="{9}", MaxTime=1)],
         families=[server_family([sexport("cancel", CancelBudget=2), sexport("cancel-limit", Limit=1, SinkMode='"coupled"', cap_quick=1500)],
-                                2500, 40000, {"fresh": 1, "faults": 0})],
+                                2500, 40000, {"fresh": 1, "faults": 0}),
+                  # response backlog: unready sink, full response buffer, handlers parked on the response send, then cancels
+                  dict(server_family([sexport("cancel-backlog", MaxInc=3, SinkMode='"coupled"', CancelBudget=1, AllowEof=False, cap_quick=1500, sim_quick=3000)],
+                                     2000, 30000, {"fresh": 1, "faults": 0, "mode": "coupled", "limit": "-1", "reqs": 6, "appdrop": 0}), tag="backlog")],
         relevant=lambda e: has(e, "Cancel"),
     ),
     "C06": dict(
@@ -314,10 +318,14 @@ SERVER_PROPS = {
         assumptions=SERVER_ASSUME,
         models=[smodel("deadlines", ["M_C06", "M_C11"], Deadlines="{0, 1, 2}", MaxTime=3, CancelBudget=0, thorough=dict(MaxInc=3)),
                 smodel("deadlines-limit-slow-sink", ["M_C06", "M_C11"], Deadlines="{1, 2}", MaxTime=3, CancelBudget=0, Limit=1,
-                       SinkMode='"coupled"', thorough=dict(MaxInc=3))],
+                       SinkMode='"coupled"', thorough=dict(MaxInc=3)),
+                smodel("deadlines-duplicates", ["M_C06"], Ids="{1}", MaxInc=3, Deadlines="{1, 2, 3}", MaxTime=3, CancelBudget=0, FreshIdsOnly=False)],
         families=[server_family([sexport("deadlines", Deadlines="{0, 1, 2}", MaxTime=3, CancelBudget=0),
                                  sexport("deadlines-limit", Deadlines="{1, 2}", MaxTime=3, CancelBudget=0, Limit=1, SinkMode='"coupled"', cap_quick=1500)],
-                                2500, 40000, {"fresh": 1, "faults": 0})],
+                                2500, 40000, {"fresh": 1, "faults": 0}),
+                  # duplicates of requests that are still in flight, with other deadlines (they must be ignored, timers included)
+                  dict(server_family([sexport("deadlines-dup", Ids="{1}", MaxInc=3, Deadlines="{1, 2, 3}", MaxTime=3, CancelBudget=0, FreshIdsOnly=False, cap_quick=1500)],
+                                     1500, 20000, {"fresh": 0, "faults": 0, "appdrop": 0, "dups": 1}), tag="dups")],
         relevant=lambda e: has(e, "Tick") and any(s.get("a") == "Req" and s.get("dl", 10000) < 1000 for s in e.get("steps", [])),
     ),
     "C08": dict(
